@@ -886,7 +886,7 @@ def longitude_range_rule(repo, rep):
                 return
             for st, val in ip.returns:
                 v = val[1] if isinstance(val, tuple) and len(val) > 1 else TOP
-                if v is TOP:
+                if v is TOP or v[0] == float('-inf') or v[1] == float('inf'):
                     rep.undecided('R-RANGE', key, where(f, st), 'the interval of the returned longitude is not bounded by the analysis (%s, zone %s)' % (pname, zr))
                     return
                 if v[0] < lo_ok - 1e-9 or v[1] > hi_ok + 1e-9:
